@@ -257,6 +257,21 @@ func solveAll(obls []*Obligation, dir string, timeout time.Duration, confirm boo
 	}
 	close(ch)
 	wg.Wait()
+	// Under load a solver may be killed or time out on an easy goal: retry the undecided ones one at a time, with more time.
+	for _, o := range obls {
+		if o.Result == nil || o.Result.Status == "error" || o.Result.Status == "timeout" || (o.WantSat && o.Result.Status != "sat" && o.Result.Status != "unsat") {
+			first := o.Result
+			t := 2 * timeout
+			if o.WantSat {
+				t = 10 * time.Second
+			}
+			solveObligation(o, dir, t, false, order)
+			if o.Result != nil && first != nil {
+				o.Result.Seconds += first.Seconds
+				o.Result.Raw += "\n[retried after " + first.Status + "]"
+			}
+		}
+	}
 }
 
 func (o *Obligation) Discharged() bool {
